@@ -226,6 +226,11 @@ package linux
 //vc:spec func specialKey(k string) bool = k == "-m" || k == "--set-xmark" || k == "--set-mark"
 //vc:func normalizeIPTables
 //vc:  invariant[C05] 1 "for k, v := range pairs" @normalisedOnceIfVisited forall c string :: { pairs[c] } !specialKey(c) ==> (rangevisited[c] ==> normRel(c, old(pairs[c]), pairs[c])) && (!rangevisited[c] ==> pairs[c] == old(pairs[c])) && ((c in pairs) == old(c in pairs))
+// --set-xmark V/M (xor under a mask) is rewritten to --set-mark only without
+// mask or with the full mask, where both mean the same; with any other mask it
+// stays what it is, so that it never compares equal to a --set-mark rule
+//vc:  invariant[C05] 1 "for k, v := range pairs" @xmarkUntouchedByValueRewriting (("--set-xmark" in pairs) == loopold("--set-xmark" in pairs)) && pairs["--set-xmark"] == loopold(pairs["--set-xmark"])
+//vc:  ensures[C05] @xmarkWithOtherMaskKept old("--set-xmark" in pairs) && strings.Cut$2(old(pairs["--set-xmark"]), "/") && strings.ToLower(strings.Cut$1(old(pairs["--set-xmark"]), "/")) != "0xffffffff" ==> ("--set-xmark" in pairs) && pairs["--set-xmark"] == old(pairs["--set-xmark"])
 //vc:  ensures[C05] @everyOptionInNormalForm forall c string :: { pairs[c] } !specialKey(c) && (c in pairs) ==> normRel(c, old(pairs[c]), pairs[c])
 //vc:  ensures[C05] @noOptionAddedOrLost forall c string :: { c in pairs } !specialKey(c) ==> ((c in pairs) == old(c in pairs))
 
